@@ -46,6 +46,11 @@ def oracle(rep, old, new, generated):
     # from 1000 on the id string keeps its width, zeros included
     if int(old) >= 1000 and len(new) < len(old):
         rep.violation("leading zeros lost (new BUILD shorter than old)", input=dict(old=old, new=new), **{"class": "zeros-lost"})
+    # a zero-padded id keeps its padding while the number itself keeps its digit count (no 999 -> 11000-style expansion is due)
+    core = old.lstrip("0")
+    if int(old) >= 1000 and old.startswith("0") and core[0] not in "89" and set(core[1:]) != {"9"} and len(str(int(core) + 1)) == len(core):
+        if new != old[:len(old) - len(core)] + str(int(core) + 1):
+            rep.violation("leading zeros lost (the padded id %s becomes %s)" % (old, new), input=dict(old=old, new=new), **{"class": "zeros-lost"})
 
 
 def gen_ids(tier, seed, effort=1):
